@@ -8,7 +8,7 @@ PROPS = [json.loads(l)["id"] for l in open(os.path.join(HERE, "properties.jsonl"
 
 # id -> (technique, level text, level note, design ref)
 CHECKS = {
- "C01": ("TLC exhaustive model checking of IncExplainer.tla (Efficiency invariant) and of the atomic AbsExplainer.tla it refines (TLC refinement check Refine_IncExplainer.tla) + TLC behaviours replayed into IncrementalSage + TLC trace validation of recorded explain_one calls in GF(p)",
+ "C01": ("TLC exhaustive model checking of IncExplainer.tla (Efficiency invariant) and of the atomic AbsExplainer.tla it refines (TLC refinement check Refine_IncExplainer.tla) + TLAPS proof of the identity for streams of any length (EffProof.tla, bound by the TLC action property CommitIsLinear) + TLC behaviours replayed into IncrementalSage + TLC trace validation of recorded explain_one calls in GF(p)",
          "Efficiency is a state invariant of the TLA+ specification, checked by TLC in every reachable state (all orders, row draws, reservoir outcomes, fault positions) for small constants; the code is bound to the specification by replaying every TLC behaviour into the real class (exact Fractions) and by validating recorded executions over the configuration product with TLC (the identity is evaluated on every logged state).",
          "callbacks deterministic; exact identity checked mod p=46337 on Fraction runs; floats within an explicit tolerance; model bounds d<=3, n_inner<=2, <=4 calls (TLC) and d<=4, <=60 calls (traces)", "§4 C01"),
  "C02": ("TLC model checking of IncExplainer.tla in PFI mode (RunningStatistic, ContributionDefinition, FirstCallSeedsOnly) + behaviour replay + TLC trace validation in GF(p)",
@@ -26,7 +26,7 @@ CHECKS = {
  "C06": ("TLC exhaustive model checking of MC_Imputers.tla (all subsets, storages, draws) + every behaviour replayed into MarginalImputer / DefaultImputer with scripted row draws + imputer clauses on explainer traces validated by TLC",
          "AgreesOutside, InsideFromBackground, JointNeverMixes, EmptySubsetIsIdentity are TLC invariants; each enumerated case is replayed into the real imputers for six subset container types and four storage kinds (model inputs, predictions, non-mutation), and imputer calls inside recorded explainer runs are checked by TLC.",
          "values encode their origin (instance / row / default); TreeImputer is covered by C19", "§4 C06"),
- "C07": ("TLC exhaustive model checking of Storages.tla (5 kinds, every reservoir outcome) + Apalache inductive invariants for streams of any length (StoreInd.tla, kernels bound to Storages.tla by TLC) + behaviour replay into the deterministic storages and the p=1 reservoir + TLC trace validation with the reservoir outcome inferred",
+ "C07": ("TLC exhaustive model checking of Storages.tla (5 kinds, every reservoir outcome) + Apalache inductive invariants for streams of any length and TLAPS proofs for any capacity (StoreInd.tla / StoreIndProof.tla, kernels bound to Storages.tla by TLC) + behaviour replay into the deterministic storages and the p=1 reservoir + TLC trace validation with the reservoir outcome inferred",
          "Sub-multiset, count, alignment and the per-kind content laws are TLC invariants over all update sequences and all accept/slot outcomes; every recorded update of the five real classes must be a specification successor of the logged content (TLC infers the random outcome).",
          "x and y carry different encodings of the arrival id; reservoir outcomes that need an assumption on how a uniform draw maps to acceptance are only validated in direction B", "§4 C07"),
  "C08": ("TLC distribution-transformer model checking (ReservoirLaw.tla, exact rationals: UniformSubsets, UniformInclusion) + AlgorithmL.tla control structure with StaleW negative control + calibrated statistics of the code against the TLC-exported law + white-box skip check",
@@ -38,10 +38,10 @@ CHECKS = {
  "C10": ("TLC exhaustive model checking of Trackers.tla closed forms over exact rationals + every TLC state replayed into the trackers + TLC validation of recorded transitions in GF(p)",
          "All streams over a 5-letter alphabet up to length 5-7 are enumerated by TLC with the closed forms, linearity, hull and shift/scale laws as invariants; each state is replayed into the real classes (Fraction, float, NumPy) and generic transitions of the code are validated by TLC as polynomial identities.",
          "induction over the stream length is at the specification level; the code's single step is bound by identity testing mod p", "§4 C10"),
- "C11": ("TLC model checking of the ring-buffer specification (WindowIsLastK, WrapBug negative control) + Apalache inductive invariant for streams of any length (SWInd.tla, step bound to Trackers!SWUpd by TLC) + replay of all (k, n) states + TLC trace validation with TLC carrying the window",
+ "C11": ("TLC model checking of the ring-buffer specification (WindowIsLastK, WrapBug negative control) + Apalache inductive invariant for streams of any length and TLAPS proof for any window length (SWInd.tla / SWIndProof.tla, step bound to Trackers!SWUpd by TLC) + replay of all (k, n) states + TLC trace validation with TLC carrying the window",
          "The window content is an invariant over all k <= 5 and n <= 2k+3; every state is driven through SlidingWindowTracker and random integer streams are validated by TLC, which carries the specification's buffer.",
          "float statistics compared with explicit tolerance", "§4 C11"),
- "C12": ("TLC model checking of MVUpd/MVNorm over all update-dictionary sequences + replay with six numeric types + TLC trace validation in GF(p)",
+ "C12": ("TLC model checking of MVUpd/MVNorm over all update-dictionary sequences + Apalache inductive invariant and TLAPS proof of the counting skeleton for any key set and any number of updates (MVInd.tla / MVIndProof.tla, bound to MVUpd by TLC) + replay with six numeric types + TLC trace validation in GF(p)",
          "Per-key independence, zero-fill, key monotonicity and the normalisation cases are TLC invariants / action properties; every TLC state is replayed with int, float, Fraction and NumPy scalars (finiteness included).",
          "zero test compared between Q and GF(p), disagreeing cases skipped and counted", "§4 C12"),
  "C13": ("TLC model checking of MetricLoss.tla (shared metric as a bag; probe/update/get/revert micro-steps; NoRevert negative control) + every TLC call history replayed on all river metrics accepted by validate_loss_function",
